@@ -1,7 +1,7 @@
 (* Props/C05.v — property C05: collection deltas are coherent with collection values at every tick.
    Statements only; every proof is one [exact].  The models are the mirrors of Coll.v / Window.v;
    a history is a list of engine cycles (time, mutations) at strictly increasing times. *)
-Require Import Base Coll Window Fixed CollFacts TsdFacts WindowFacts FixedFacts.
+Require Import Base Coll CollOld Window Fixed CollFacts TsdFacts TsdValueFacts WindowFacts FixedFacts.
 
 (* ================================================================== TSS *)
 (* [tss_trace tss_empty h] lists, for every cycle of the history h, the storage before the cycle, the
@@ -127,15 +127,22 @@ Theorem tsd_modified_are_live : forall h, dincreasing MIN_DT h ->
 Proof. exact TsdFacts.tsd_modified_live_l. Qed.
 Print Assumptions tsd_modified_are_live.
 
-(* The VALUE part of the step statement - "every key that is neither removed nor modified keeps its
-   value" - is FALSE of the faithful model (and of the implementation: known finding
-   KF-tsd-set-erase-set-C05): a key written, erased and written again within one cycle carries a new
-   value but is not reported as modified.
-     tsd_value_step : forall h ..., In (a,t,ops,b) (tsd_trace tsd_empty h) -> tsd_apply_delta_ok a t b      (FALSE)  *)
-Theorem tsd_value_step_refuted :
-  exists h a t ops b, dincreasing MIN_DT h /\ In (a, t, ops, b) (tsd_trace tsd_empty h) /\ ~ tsd_apply_delta_ok a t b.
-Proof. exact TsdFacts.tsd_value_step_refuted_l. Qed.
-Print Assumptions tsd_value_step_refuted.
+(* The VALUE part of the step statement: value' = value with the delta (removed keys, modified items) applied -
+   in every cycle of every history a key that is neither removed nor modified keeps its value (and an absent
+   key stays absent).  Holds for the REPAIRED insert rule (restore_modified_on_resurrection). *)
+Theorem tsd_value_step : forall h, dincreasing MIN_DT h ->
+  forall a t ops b, In (a, t, ops, b) (tsd_trace tsd_empty h) ->
+  forall k, ~ In k (tsd_removed t b) -> ~ In k (tsd_modified_keys t b) -> tsd_get b k = tsd_get a k.
+Proof. exact TsdValueFacts.tsd_value_step_l. Qed.
+Print Assumptions tsd_value_step.
+
+(* HISTORY (known finding KF-tsd-set-erase-set-C05, repaired): under the insert rule hgraph had before the repair
+   (CollOld.v) the statement was false - a key written, erased and written again within one cycle carried a new
+   value without being reported as modified. *)
+Theorem tsd_value_step_old_rule_refuted :
+  exists t ops, 0 < t /\ ~ tsd_apply_delta_ok tsd_empty t (tsd_cycle_old t ops tsd_empty).
+Proof. exact TsdFacts.tsd_value_step_old_rule_refuted_l. Qed.
+Print Assumptions tsd_value_step_old_rule_refuted.
 
 
 (* ================================================================== TSB / fixed TSL (TS<int> children) *)
@@ -215,6 +222,11 @@ Example ex_fixed :
   = [ ([Some 5; None; None], [Some 5; None; None]); ([Some 5; Some 7; None], [None; Some 7; None]);
       ([Some 5; Some 7; None], [None; None; None]); ([Some 9; Some 7; Some 8], [Some 9; None; Some 8]) ].
 Proof. vm_compute. split; [repeat split; reflexivity|reflexivity]. Qed.
+
+Example ex_tsd_repaired :
+  let b := tsd_cycle 1 [DSet 2 9; DErase 2; DSet 2 3] tsd_empty in
+  tsd_modified_keys 1 b = [2] /\ tsd_added 1 b = [2] /\ tsd_get b 2 = Some 3.
+Proof. exact TsdFacts.tsd_repaired_witness. Qed.
 
 Example ex_window :
   let h := [ (1, [WPush 10]); (2, [WPush 11]); (3, []); (4, [WPush 12]); (5, [WPush 13; WPush 14]); (7, [WClear; WPush 15]) ] in
